@@ -10,6 +10,8 @@ Kernels (DESIGN.md section 4, C15):
   K2  the files-matchers applied to that set: num-files (operand symbolic, one obligation per operator), is-empty,
       every / any file, matches / matches -full with FILES-CONDITIONs, `type`, nested `dir-contents`,
       negation of the instruction.
+  K7  [selector] one matcher OBJECT applied to several trees in turn (T1, T2, T1): no state may be carried from one
+      application to the next (every files-matcher of K2, all FILES-CONDITIONs, all pairs of fixtures).
   K3  populating: the REAL `dir` instruction (setup phase) with a FILE-LIST chosen [selector] from a
       catalogue of FILE-SPECs, applied to real directories; oracle: a fold of the documented
       semantics over an in-memory tree; nothing outside the populated directory changes.
@@ -428,13 +430,118 @@ def k2_special(k: int) -> bool:
     return ob.post(r.status.name == exp)
 
 
+# --------------------------------------------------------------------------- K7: one matcher object, several trees
+
+QB_PREDICATES = [  # quick: the first two
+    ('named-a', lambda rel: rel.split('/')[-1] == 'a'),
+    ('top-level', lambda rel: '/' not in rel),
+    ('all', lambda rel: True),
+    ('none', lambda rel: False),
+]
+
+K7_FIXTURES = ['nest', 'flat', 'empty', 'links', 'two', 'deep', 'mix']  # quick: the first four
+
+
+_K7_MATCHERS = []
+
+
+def _k7_matchers():
+    """(matcher spec as in K2, integer operand K2 / index of the FILES-CONDITION)"""
+    if _K7_MATCHERS:
+        return _K7_MATCHERS
+    ms = _K7_MATCHERS
+    ms += [(('num', '=='), 2), (('num', '>'), 0), (('num', '<='), 4), (('empty',), 0),
+          (('every', 'QB'), 0), (('any', 'QB'), 0), (('every', 'type dir'), 0), (('any', 'type symlink'), 0),
+          (('any', 'type file'), 0), (('subdirs-num',), 1)]
+    for full in (False, True):
+        for i, fc in enumerate(FC_NEST):
+            if any(name == '' or name.startswith('/') for name, fm in fc):
+                continue
+            ms.append((('matches', full), i))
+    return ms
+
+
+class _PredicateVerdict:
+    """verdict_of for the stub FILE-MATCHER SB of K7: a predicate on the path relative to the tree being matched"""
+
+    def __init__(self, state: dict, pred):
+        self.state = state
+        self.pred = pred
+
+    def __call__(self, model) -> bool:
+        return self.pred(os.path.relpath(str(model.path.primitive), self.state['root']))
+
+
+def run_reapply(mi: int, t1: str, t2: str, qi: int, rec: bool, oracle_bug: bool = False) -> bool:
+    """ONE primitive of `dir-contents [-recursive] FILES-MATCHER` (parsed by the real parser, resolved the way the
+    `exists` instruction resolves it) is applied to the trees t1, t2, t1 in turn: every verdict must be the
+    documented one for the tree at hand - a matcher object must not carry state from one application to the next.
+    Everything here is concrete."""
+    from vsym import xly
+    from exactly_lib.impls.instructions.utils.logic_type_resolving_helper import resolving_helper_for_instruction_env
+    from exactly_lib.impls.types.file_matcher import parse_file_matcher
+    from exactly_lib.impls.types.file_matcher.file_matcher_models import FileMatcherModelForDescribedPath
+    from exactly_lib.symbol.value_type import ValueType
+    from exactly_lib.tcfs.path_relativity import RelOptionType
+    from exactly_lib.type_val_deps.types.path import path_ddvs
+    m, arg = _k7_matchers()[mi]
+    k = arg if m[0] in ('num', 'subdirs-num') else 0
+    fc_idx = arg if m[0] == 'matches' else 0
+    pred = QB_PREDICATES[qi][1]
+    w = lib.world()
+    state = {'root': None}
+    symbols = xly.symbol_table({
+        'SB': xly.matcher_symbol(xly.StubMatcher('SB', _PredicateVerdict(state, pred), []), ValueType.FILE_MATCHER)})
+    xly.install_int_placeholders([0, 0, k])
+    text = 'dir-contents %s%s' % ('-recursive ' if rec else '', _matcher_text(m, fc_idx))
+    sdv = xly.parse_cached('file-matcher', parse_file_matcher.parsers().full, text)
+    helper = resolving_helper_for_instruction_env(lib.os_services(), w.env_post(symbols))
+    primitive = helper.resolve_matcher(sdv)
+    n = 0
+    for fx in (t1, t2, t1):
+        n += 1
+        state['root'] = fx_real(fx)
+        fs, entries, dirs = fx_info(fx)
+        path = path_ddvs.simple_of_rel_option(RelOptionType.REL_ACT, fx).value_of_any_dependency__d(w.tcds)
+        got = primitive.matches_w_trace(FileMatcherModelForDescribedPath(path)).value
+        ref_fx = t1 if (oracle_bug and n == 2) else fx  # seeded oracle error: the 2nd verdict is that of the 1st tree
+        rfs, rentries, rdirs = fx_info(ref_fx)
+        listing = lib.ref_listing(rfs, [ref_fx], rec, None, None, _false, _true)
+        qb = tuple(pred(e) for e in rentries)
+        if bool(got) != bool(_ref_verdict(dict(fx=ref_fx, m=m), listing, k, qb, fc_idx)):
+            return False
+    return True
+
+
+def _pre_k7(mi, t1, t2, qi) -> bool:
+    nfx = ob.case()['nfx']
+    return (0 <= mi < len(_k7_matchers()) and 0 <= t1 < nfx and 0 <= t2 < nfx
+            and 0 <= qi < ob.case()['nq'])
+
+
+def k7_reapply(mi: int, t1: int, t2: int, qi: int) -> bool:
+    """
+    pre: _pre_k7(mi, t1, t2, qi)
+    post: _
+    """
+    case = ob.case()
+    nfx = case['nfx']
+    m_i = ob.concrete_int(mi, 0, len(_k7_matchers()) - 1)
+    a = ob.concrete_int(t1, 0, nfx - 1)
+    b = ob.concrete_int(t2, 0, nfx - 1)
+    q = ob.concrete_int(qi, 0, case['nq'] - 1)
+    with lib.untraced():
+        ok = run_reapply(m_i, K7_FIXTURES[a], K7_FIXTURES[b], q, case['rec'], bool(case.get('oracle_bug')))
+    return ob.post(ok)
+
+
 # --------------------------------------------------------------------------- K3 / K4: populate
 
 SRC_FIXTURES = {
     'src1': D(a=F('S'), sub=D(x=F('X'))),
     'src2': D(a=F('A2'), lnk=L('a')),
     'src3': D(a=F('A3'), sub=D(l=L('../a')), dl=L('nowhere')),
-    'src4': D(sub=D(x=F('X4')), ls=L('sub'), lf=L('sub/x')),
+    'src4': D(sub=D(x=F('X4'), bin=('b', b'\xff\x00')), ls=L('sub'), lf=L('sub/x'), bin=('b', b'\xff\xfe\x00\n')),
     'afile': F('not a dir'),
 }
 
@@ -463,8 +570,8 @@ def _entry_catalogue(tier):
         ('file', 'a', '=', 'x'),
         ('file', 'a', '+=', 'y'),
         ('dir', 'd', None, None),
-        ('dir', 'd', '=', [('file', 'a', '=', 'z')]),
-        ('dir', 'd', '+=', [('file', 'b', None, None), ('dir', 'e', None, None)]),
+        ('dir', 'd', '=', [('file', 'a', '=', 'z'), ('file', 'p/q/r', None, None)]),
+        ('dir', 'd', '+=', [('file', 'b', None, None), ('dir', 'e', None, None), ('file', 'e/q/r/s', '=', 'S')]),
         ('file', 'd/a', '=', 'w'),
         ('file', 'd/a', '+=', 'v'),
         ('dir', 'd/e/g', None, None),
@@ -483,6 +590,7 @@ def _entry_catalogue(tier):
             ('dir', 'd', '+=', [('file', 'a', '+=', 't'), ('file', '../y', None, None)]),
             ('dir', 'd', '+=', [('dir', 'e', '=', [('file', 'deep', '=', 'D')]), ('file', 'e/deep', '+=', '2')]),
             ('file', './a//b/', '=', 'n'),
+            ('file', 'p/q/r', '=', 'R'),
             ('dir', 'c', '=', ('copy', ['case', 'src3'])),
             ('dir', 'c', '=', ('copy', ['case', 'nosuch'])),
             ('dir', 'c', '=', ('copy', ['case', 'afile'])),
@@ -995,6 +1103,7 @@ def obligations(tier: str) -> List[Ob]:
                   bound='seeded oracle error: -max-depth taken as exclusive', timeout=120,
                   expect=ob.REFUTE, real=REAL_WALK))
     obs += _k2_obligations(tier)
+    obs += _k7_obligations(tier)
     obs += _k3_obligations(tier)
     obs += _k4_obligations(tier)
     obs += _k5_obligations(tier)
@@ -1095,6 +1204,11 @@ K2_SPECIAL = [
     ('link-to-dir', dict(fx='links', text='-rel-act links/ld : dir-contents num-files == K2', expect='num==', n=1)),
     ('nested-dir-contents', dict(fx='two', text='-rel-act two : dir-contents -selection name q every file : '
                                                    'dir-contents -recursive -min-depth 1 num-files == K2', expect='num==', n=1)),
+    # the inner `matches` object is applied to p, q (depth 0) and then to q/r, which has no `a`
+    ('nested-matches', dict(fx='two', text='-rel-act two : dir-contents -recursive -selection type dir every file : '
+                                              'dir-contents matches { a }', expect='FAIL')),
+    ('nested-matches-full', dict(fx='two', text='-rel-act two : dir-contents -recursive -selection type dir any file : '
+                                                   'dir-contents matches -full { b }', expect='PASS')),
     ('missing', dict(fx='links', text='-rel-act links/nosuch : dir-contents is-empty', expect='FAIL')),
 ]
 
@@ -1120,6 +1234,27 @@ def _k2_obligations(tier):
                       stubs=(STUB_INT,), outside=OUT_WALK, entry='`exists ...` (assert phase instruction)'))
     obs.append(Ob(name='K2:seeded-oracle-error', fn='k2_match', case=dict(M1, m=('num', '=='), oracle_bug=True), kernel='K2',
                   bound='seeded oracle error: the oracle loses a file', timeout=120, expect=ob.REFUTE, real=REAL_K2))
+    return obs
+
+
+def _k7_obligations(tier):
+    nfx = 4 if tier == 'quick' else len(K7_FIXTURES)
+    nq = 2 if tier == 'quick' else len(QB_PREDICATES)
+    nm = len(_k7_matchers())
+    obs = []
+    for rec in (False, True):
+        obs.append(Ob(name='K7:reapply/%s' % ('rec' if rec else 'nonrec'), fn='k7_reapply', case=dict(rec=rec, nfx=nfx, nq=nq), kernel='K7',
+                      bound='ONE primitive of `dir-contents %sM` applied to the trees T1, T2, T1 in turn, every verdict as '
+                            'documented for the tree at hand: every M in a catalogue of %d files-matchers (num-files, is-empty, '
+                            'every / any file, nested dir-contents, matches [-full] with the %d valid FILES-CONDITIONs), every '
+                            'T1, T2 in %r, %d verdict functions of the stub matcher SB' % (
+                                '-recursive ' if rec else '', nm, (nm - 10) // 2, K7_FIXTURES[:nfx], nq),
+                      timeout=600, real=REAL_K2, stubs=(STUB_UNTRACED, STUB_FM), outside=OUT_WALK, selector=True,
+                      entry='parse_file_matcher.parsers().full -> LogicTypeResolvingHelper.resolve_matcher (as `exists` does) '
+                            '-> matches_w_trace on FileMatcherModelForDescribedPath; public form: `every file : dir-contents M`'))
+    obs.append(Ob(name='K7:seeded-oracle-error', fn='k7_reapply', case=dict(rec=True, nfx=4, nq=2, oracle_bug=True), kernel='K7',
+                  bound='seeded oracle error: the second verdict is that of the first tree', timeout=120,
+                  expect=ob.REFUTE, real=REAL_K2, selector=True))
     return obs
 
 
